@@ -3,8 +3,8 @@ SPECIFICATION Spec
 CONSTANTS
  Kind = "counter"
  Replicas = {1, 2, 3}
- MaxLocal = 2
- MoreLocal = {}
+ MaxLocal = 1
+ MoreLocal = {1}
  MaxBatch = 1
  Keys = {"a"}
  Deltas = {1, 7, 13}
